@@ -89,7 +89,7 @@ def main():
     if shard:
         ids = [x for i, x in enumerate(ids) if i % shard[1] == shard[0]]
         os.makedirs("/verif/work", exist_ok=True)
-        outf = open(os.environ.get("REGRESS_OUT", "/verif/work/regress_shard_%d.jsonl" % shard[0]), "w")
+        outf = open(os.environ.get("REGRESS_OUT", "/verif/work/regress_shard_%d.jsonl" % shard[0]), "a" if os.environ.get("REGRESS_OUT") else "w")
     for sid in ids:
         pid = sid.split("-")[0]
         t0 = time.time()
